@@ -16,6 +16,7 @@ from ..classex import ClassEx
 from ..model import Program, walk_own
 from ..report import AnalysisError
 from . import common
+from ..model import canon as K
 
 MESH = common.MESH
 
@@ -39,7 +40,7 @@ def run(rep, tier):
     ok = False
     if inner:
         rets = [r for r in ast.walk(inner[0]) if isinstance(r, ast.Return)]
-        ok = len(rets) == 1 and T(mod, rets[0].value) == "(f_R(x[0],x[1]),f_Z(x[0],x[1]))" and [a.arg for a in inner[0].args.args] == ["psi", "x"]
+        ok = len(rets) == 1 and T(mod, rets[0].value) == K("(f_R(x[0],x[1]),f_Z(x[0],x[1]))") and [a.arg for a in inner[0].args.args] == ["psi", "x"]
     rep.ob("R1", "ODE right-hand side is (f_R(R,Z), f_Z(R,Z)) with psi as the independent variable", ok, f.site(inner[0]) if inner else f.site(), "", key="ode/rhs")
     calls = [n for n in walk_own(f.node) if isinstance(n, ast.Call) and T(mod, n.func) == "solve_ivp"]
     ok = False
@@ -47,12 +48,12 @@ def run(rep, tier):
         c = calls[0]
         a = [T(mod, x) for x in c.args]
         kw = {k.arg: T(mod, k.value) for k in c.keywords}
-        ok = a == ["f", "psirange", "tuple(p0)"] and kw.get("t_eval") == "psivals" and kw.get("rtol") == "rtol" and kw.get("atol") == "atol"
+        ok = a == ["f", "psirange", K("tuple(p0)")] and kw.get("t_eval") == "psivals" and kw.get("rtol") == "rtol" and kw.get("atol") == "atol"
     rep.ob("R1", "integration starts at the given point, runs over psirange and reports the solution at the target psi values", ok, f.site(), "", key="ode/call")
-    ok = any(isinstance(s, ast.Assign) and T(mod, s) == "psirange=(psi0,psivals[-1])" for s in walk_own(f.node))
+    ok = any(isinstance(s, ast.Assign) and T(mod, s) == K("psirange=(psi0,psivals[-1])") for s in walk_own(f.node))
     rep.ob("R1", "psirange = (psi0, last target)", ok, f.site(), "", key="ode/range")
     rets = [r for r in walk_own(f.node) if isinstance(r, ast.Return)]
-    ok = any(T(mod, r.value) == "[Point2D(*p)forpinsolution.y.T]" for r in rets)
+    ok = any(T(mod, r.value) == K("[Point2D(*p)forpinsolution.y.T]") for r in rets)
     rep.ob("R1", "the result is the list of solution points, one per target value", ok, f.site(), "", key="ode/result")
     # the f_R, f_Z passed in are the equilibrium's
     init = prog.func(MESH, "MeshRegion.__init__")
@@ -92,32 +93,32 @@ def run(rep, tier):
     nrev = 0
     for c in rec:
         pv = {k.arg: T(mod, k.value) for k in c.keywords}.get("psivals", "")
-        reversed_arg = pv.endswith("[::-1]")
+        reversed_arg = pv.endswith(K("[::-1]"))
         p = parents.get(c)
-        reversed_res = isinstance(p, ast.Subscript) and T(mod, p.slice) == "::-1"
+        reversed_res = isinstance(p, ast.Subscript) and T(mod, p.slice) == K("::-1")
         if pv == "new_psivals":
             continue
         nrev += reversed_arg
         rep.ob("R2", "recursive call with targets `%s`: the result is %sreversed" % (pv, "" if reversed_arg else "not "), reversed_arg == reversed_res, f.site(c), "", key="pairing/" + pv)
     rep.floor("R2.reversed-calls", nrev, 2)
     src = T(mod, f.node)
-    ok = ("left=[psiforpsiinpsivalsifpsi<psi0]" in src and "right=[psiforpsiinpsivalsifpsi>=psi0]" in src
-          and "left=[psiforpsiinpsivalsifpsi>=psi0]" in src and "right=[psiforpsiinpsivalsifpsi<psi0]" in src and "ifpsivals[0]<psi0:" in src)
+    ok = (K("left=[psiforpsiinpsivalsifpsi<psi0]") in src and K("right=[psiforpsiinpsivalsifpsi>=psi0]") in src
+          and K("left=[psiforpsiinpsivalsifpsi>=psi0]") in src and K("right=[psiforpsiinpsivalsifpsi<psi0]") in src and K("ifpsivals[0]<psi0:") in src)
     rep.ob("R2", "the split around psi0 is a partition (< versus >=), assigned to left/right by the side psivals starts on", ok, f.site(), "", key="partition")
-    ok = "ifmin(psivals)<psi0<max(psivals):" in src
+    ok = K("ifmin(psivals)<psi0<max(psivals):") in src
     rep.ob("R2", "the split is taken only when psi0 lies strictly inside the target range", ok, f.site(), "", key="partition/guard")
-    ok = "ifabs(psivals[-1]-psi0)<abs(psivals[0]-psi0):" in src
+    ok = K("ifabs(psivals[-1]-psi0)<abs(psivals[0]-psi0):") in src
     rep.ob("R2", "targets are reversed when their end is closer to psi0 than their start", ok, f.site(), "", key="pairing/closer-end")
     # the concatenation order: reversed left part first, then right part
     cat = [n for n in walk_own(f.node) if isinstance(n, ast.Return) and isinstance(n.value, ast.BinOp) and isinstance(n.value.op, ast.Add)]
-    ok = len(cat) == 1 and "psivals=left[::-1]" in T(mod, cat[0].value.left) and "psivals=right" in T(mod, cat[0].value.right)
+    ok = len(cat) == 1 and K("psivals=left[::-1]") in T(mod, cat[0].value.left) and K("psivals=right") in T(mod, cat[0].value.right)
     rep.ob("R2", "the two halves are joined as reversed(left-from-psi0) + right-from-psi0, i.e. in the order of psivals", ok, f.site(), "", key="partition/join")
-    ok = any(isinstance(s, ast.Assign) and T(mod, s) == "psivals=psivals.copy()" for s in walk_own(f.node))
+    ok = any(isinstance(s, ast.Assign) and T(mod, s) == K("psivals=psivals.copy()") for s in walk_own(f.node))
     rep.ob("R2", "the caller's target array is copied before the rounding fix-up modifies it", ok, f.site(), "", key="targets/copy")
     # R3 results kept in index order (C01.R4 checks the start-point zip)
-    ok = "perp_points_list=self.parallel_map(followPerpendicular," in T(mod, init.node)
+    ok = K("perp_points_list=self.parallel_map(followPerpendicular,") in T(mod, init.node)
     rep.ob("R3", "one follower call per start point; the results list is indexed like the start points (order guaranteed by C13.R1)", ok, init.site(), "", key="index/map")
-    ok = "forperp_pointsinperp_points_list[1:]:fori,pointinenumerate(perp_points):self.contours[i].append(point)" in T(mod, init.node)
+    ok = K("forperp_pointsinperp_points_list[1:]:fori,pointinenumerate(perp_points):self.contours[i].append(point)") in T(mod, init.node)
     rep.ob("R3", "points of one perpendicular go to successive contours at the same poloidal position", ok, init.site(), "", key="index/append")
     rep.undecided("integration tolerance, X-point neighbourhoods, recover=True grids")
     return __doc__
